@@ -75,9 +75,14 @@ def r1_perimeter(ck, F):
     R = "C17-R1"
     p = unsafe_perimeter(F)
     ck.extra.setdefault("unsafe_perimeter", {})[F.config] = {f"{k[0]} -> {k[1]}": v for k, v in sorted(p["ops"].items())}
-    new = {k: v for k, v in p["ops"].items() if k not in PERIMETER}
+    # lifetime extensions (transmute_entry_to_static / a raw transmute outside the helper) are a *kind* with a
+    # per-site discharging rule: C17-R2 is evaluated for every function that performs one, wherever it is, so
+    # these do not have to stay inside the table of reviewed (function, callee) pairs
+    def by_r2(k):
+        return k[0] != A("transmute_entry") and (k[1] == A("transmute_entry") or k[1].endswith("intrinsics::transmute"))
+    new = {k: v for k, v in p["ops"].items() if k not in PERIMETER and not by_r2(k)}
     gone = {k: v for k, v in PERIMETER.items() if k not in p["ops"]}
-    more = {k: (v, PERIMETER[k]) for k, v in p["ops"].items() if k in PERIMETER and v > PERIMETER[k]}
+    more = {k: (v, PERIMETER[k]) for k, v in p["ops"].items() if k in PERIMETER and v > PERIMETER[k] and not by_r2(k)}
     for k, v in sorted(new.items()):
         ck.ob(R, f"unreviewed-unsafe-operation/{k[0]}/{k[1].rsplit('::', 1)[-1]}", False, f"unsafe operation {k[1]} in {k[0]} is outside the reviewed perimeter: there is no rule that discharges its obligation", config=F.config)
     for k, v in sorted(more.items()):
@@ -93,7 +98,7 @@ def r1_perimeter(ck, F):
         for s, st in b.sites():
             if s.i is not None and st["s"] == "assign" and st["rv"]["rv"] == "cast" and st["rv"]["ck"].startswith("Transmute") and not b.span_at(s).get("macros"):
                 tm.add(b.path)
-    owners = {k[0] for k in PERIMETER if k[1].endswith("transmute")}
+    owners = {k[0] for k in PERIMETER if k[1].endswith("transmute")} | set(lifetime_owners(F))
     ck.ob(R, "mir-transmutes-inside-perimeter", tm <= owners, f"MIR transmutes occur in {sorted(tm)}", config=F.config)
 
 
@@ -128,28 +133,81 @@ def _receiver_root(e, depth=0):
     return {e.k + ":" + e.show()[:40]}
 
 
+def lifetime_owners(F):
+    """every function of the current tree that extends a lifetime: calls transmute_entry_to_static or
+    performs a raw transmute (the helper itself excepted)"""
+    out = set()
+    for k in unsafe_perimeter(F)["ops"]:
+        if k[0] != A("transmute_entry") and (k[1] == A("transmute_entry") or k[1].endswith("intrinsics::transmute")):
+            out.add(k[0])
+    return sorted(out)
+
+
+def sig_parts(sig):
+    """`for<'a> fn(&'a mut T, U) -> V` -> (["&'a mut T", "U"], "V") keeping region names"""
+    i = sig.index("fn(") + 3
+    depth, j, parts, cur = 0, i, [], ""
+    while j < len(sig):
+        ch = sig[j]
+        if ch in "(<[":
+            depth += 1
+        elif ch in ")>]":
+            if depth == 0 and ch == ")":
+                break
+            if not (ch == ">" and sig[j - 1] == "-"):
+                depth -= 1
+        if ch == "," and depth == 0:
+            parts.append(cur.strip())
+            cur = ""
+        else:
+            cur += ch
+        j += 1
+    if cur.strip():
+        parts.append(cur.strip())
+    rest = sig[j + 1:]
+    out = rest.split("->", 1)[1].strip() if "->" in rest else "()"
+    return parts, out
+
+
+def _erase_regions(ty):
+    import re
+    return re.sub(r"'\w+ ?", "", ty)
+
+
 def r2_lifetime(ck, F):
+    import re
     R = "C17-R2"
-    owners = sorted({k[0] for k in PERIMETER if k[1].endswith("transmute") or k[1] == A("transmute_entry")} - {A("transmute_entry")})
+    owners = lifetime_owners(F)
     n = 0
     for p in owners:
-        if not F.has_body(p):
+        if not F.has_body(p) or p not in F.fns:
             ck.ob(R, f"owner-present/{p}", False, f"{p} not found", config=F.config, nontrivial=False)
             continue
         b = F.body(p)
         f = F.fns[p]
         n += 1
-        ck.ob(R, f"takes-mut-self/{p}", bool(f["inputs"]) and f["inputs"][0].startswith("&mut") and b.arg_name(1) == "self", f"{p.split('::')[-1]} takes &mut self ({f['inputs'][0] if f['inputs'] else '-'}): the returned borrow keeps the cursor exclusively borrowed", b)
-        ck.ob(R, f"no-static-in-signature/{p}", "'static" not in f["output"], f"return type `{f['output'][:90]}` carries the region of self, not 'static", b)
-        # what is transmuted originates from data reached through self
+        ins, out = sig_parts(f["sig"])
+        # what is transmuted originates from data reached through one exclusively borrowed parameter
         srcs = []
         for s, c, t in calls(b, A("transmute_entry")):
             srcs += b.arg_exprs(s)
         for s, st in b.sites():
             if s.i is not None and st["s"] == "assign" and st["rv"]["rv"] == "cast" and st["rv"]["ck"].startswith("Transmute") and not b.span_at(s).get("macros"):
                 srcs.append(b.expr_of_operand(st["rv"]["op"], s))
+                frm = st["rv"]["op"].get("pl", {}).get("ty") or st["rv"]["op"].get("ty", "?")
+                ck.ob(R, f"transmute-changes-lifetime-only/{p}", _erase_regions(frm) == _erase_regions(st["rv"]["to"]), f"transmute::<{frm}, {st['rv']['to']}> changes nothing but the region", b, s)
         roots = sorted(set().union(*[_receiver_root(x) for x in srcs])) if srcs else []
-        ck.ob(R, f"extended-borrow-comes-from-self/{p}", roots == ["self"] and len(srcs) >= 2, f"the references whose lifetime is extended are reached through {roots} (must be `self` only: not a local that dies at return)", b)
+        recv = None
+        for i, ty in enumerate(ins):
+            m = re.match(r"^&('(\w+) )?mut ", ty)
+            if m and roots == [b.arg_name(i + 1)]:
+                recv = (i, b.arg_name(i + 1), m.group(2))
+        ck.ob(R, f"takes-mut-self/{p}", recv is not None, f"{p.split('::')[-1]} reaches the extended references through {roots}, which must be one `&mut` parameter ({ins}): the returned borrow keeps that cursor exclusively borrowed", b)
+        ck.ob(R, f"no-static-in-signature/{p}", "'static" not in out, f"return type `{out[:90]}` carries the region of the receiver, not 'static", b)
+        if recv is not None:
+            regs = set(re.findall(r"'(\w+)", out))
+            ck.ob(R, f"returned-borrow-tied-to-receiver/{p}", regs <= {recv[2]} and bool(regs), f"every region of the return type ({sorted(regs)}) is the region of `&'{recv[2]} mut {recv[1]}`", b)
+        ck.ob(R, f"extended-borrow-comes-from-self/{p}", len(roots) == 1 and len(srcs) >= 2, f"the references whose lifetime is extended are reached through {roots} (must be the exclusively borrowed receiver only: not a local that dies at return)", b)
     ck.floor(R, "lifetime-extending functions", n, 6, F.config)
     te = F.fns.get(A("transmute_entry"))
     ck.ob(R, "helper-private", te is not None and not te["pub"] and te["unsafe"], f"transmute_entry_to_static is `unsafe fn`, visibility {te['vis'] if te else '?'}", config=F.config)
